@@ -3,6 +3,11 @@
 cd /verif
 for d in /verif/seeded/*/; do
   n=$(basename "$d"); p=$(python3 -c "import json;print(json.load(open('$d/meta.json'))['property'])")
-  r=$(tools/try_seed.sh "$d/patch.diff" "$p" | head -3 | tr '\n' ' ')
-  echo "$n ($p): $r"
+  cd /repo && git apply "$d/patch.diff" || { echo "$n ($p): patch does not apply"; continue; }
+  cd /verif && ./check "$p" --no-evidence > /tmp/run_seed.out 2>&1; rc=$?
+  git -C /repo checkout -- .
+  obs=$(grep "^  obligation=" /tmp/run_seed.out | sed 's/^  obligation=\([^ ]*\).*/\1/' | sort -u | tr '\n' ' ')
+  echo "$n ($p): exit=$rc violations=$(grep -c '^VIOLATION' /tmp/run_seed.out) by: $obs"
 done
+rm -f /tmp/run_seed.out
+test -z "$(git -C /repo status --short)" || echo "WARNING repo dirty"
